@@ -131,6 +131,25 @@ def eval_meta(ctx, case):
     tr1, b1 = sim.simulate(s1)
     tr2, b2 = sim.simulate(s2)
     ctx.case_done(case, nontrivial=tr1['build_error'] is None and n_inst(tr1) >= 3)
+    # both unit systems against the one SI-level model (short histories without state-dependent rules)
+    if ctx.driver.available and tr1['build_error'] is None and tr2['build_error'] is None:
+        steps = sum(r.get('n_after', 0) - r['n_before'] for r in tr1['ops'] if r['op'] == 'run')
+        simple_rules = all(r['type'] == 'const' for r in (s1.get('rules') or []))
+        if steps <= 17 and simple_rules and s1['load']['coef'][4] == 0:
+            for s_, tr_ in ((s1, tr1), (s2, tr2)):
+                st, recs = sim.parse_hist(ctx.driver.ask([sim.hist_line(s_, tr_)])[0])
+                dm = sim.compare_hist(tr_, st, recs)
+                if dm is not None and not (sim_props.near_threshold(s_, tr_) or guard_boundary(s_)):
+                    ctx.mismatch(case, dm, 'model history differs')
+        else:
+            for s_, tr_ in ((s1, tr1), (s2, tr2)):
+                reqs = sim.lockstep_requests(s_, tr_, max_steps=12)
+                for (j, _), ans in zip(reqs, ctx.driver.ask([ln for _, ln in reqs])):
+                    dm = sim.compare_step(tr_, j, ans)
+                    if dm is not None:
+                        if not (sim_props.near_threshold(s_, tr_) or rule_boundary(s_, tr_)):
+                            ctx.mismatch(case, dm, ans[:200])
+                        break
     d = traces_differ(tr1, tr2)
     if d is None:
         # snapshots agree too (same physical instant, different output units are C18's subject)
